@@ -6,8 +6,11 @@ from harness.common import bud
 from harness.sessions import SB
 
 PROP = "C12"
-MODULES = ["CassisModel.Properties.C12"]
+MODULES = ["CassisModel.Properties.C12", "CassisModel.Properties.C12RoundTrip"]
 THEOREMS = [
+    "Cassis.TsXml.tsxml_roundtrip",
+    "Cassis.TsXml.tsxml_roundtrip_redeclared",
+    "Cassis.TsXml.tsxml_roundtrip_docann",
     "Cassis.TsXml.load_consistent",
     "Cassis.TsXml.load_declares",
     "Cassis.TsXml.load_declares_exact",
@@ -152,6 +155,16 @@ def run(ctx, out, budget):
             if rng.random() < 0.4:   # redundantly redeclare built-ins identically (also a built-in together with its supertype)
                 for bn in rng.choice(REDECL_SETS):
                     d.insert(rng.randint(0, len(d)), builtin_entry(io[-1]["ok"], bn))
+            docdecl = None
+            if rng.random() < 0.35:   # a redeclared DocumentAnnotation: as the library defines it, with more features, without `language`, bare
+                fl = {"name": "language", "descr": None, "range": "uima.cas.String", "multi": None, "elem": None}
+                extra = [{"name": "docId", "descr": rng.choice([None, "corpus id"]), "range": "uima.cas.String", "multi": None, "elem": None},
+                         {"name": "sections", "descr": None, "range": "uima.cas.FSArray", "multi": rng.choice([None, False, True]),
+                          "elem": rng.choice([None, "uima.tcas.Annotation"] + user[:1])}]
+                feats = rng.choice([[fl], [fl] + extra, extra, extra[:1], [], [extra[0], fl]])
+                docdecl = {"name": "uima.tcas.DocumentAnnotation", "descr": rng.choice([None, "Document annotation"]),
+                           "super": "uima.tcas.Annotation", "feats": feats}
+                d.insert(rng.randint(0, len(d)), docdecl)
             lay = {"pad": rng.random() < 0.4, "pretty": rng.random() < 0.5, "empty_descr": rng.choice(["self-closing", "open-close", "omit"])}
             ops2.append({"op": "ts.load_xml", "desc": d, "layout": lay})
             ops2.append({"op": "ts.query", "ts": nts, "kind": "dump"})
@@ -192,12 +205,22 @@ def run(ctx, out, budget):
                 out.oracle_failures.append({"scenario": sc, "op_index": li, "what": "a permuted descriptor could not be loaded", "actual": lr,
                                             "layout": ops2[li].get("layout")})
                 break
-            if common.canon(norm_ts_dump(dr["ok"])) != common.canon(orig):
-                out.oracle_failures.append({"scenario": sc, "op_index": li, "what": "type system loaded from its descriptor differs from the original",
-                                            "expected": orig, "actual": norm_ts_dump(dr["ok"])})
-                break
             loaded_desc = ops2[li]["desc"]
-            rn = sorted({t["name"] for t in loaded_desc if t["name"] in BUILTIN_NAMES})
+            docdecl = next((t for t in loaded_desc if t["name"] == "uima.tcas.DocumentAnnotation"), None)
+            exp_dump = orig
+            if docdecl is not None:
+                # a redeclared DocumentAnnotation carries exactly the declared features and description
+                exp_dump = copy.deepcopy(orig)
+                da = exp_dump["uima.tcas.DocumentAnnotation"]
+                da["descr"] = docdecl["descr"]
+                da["own"] = sorted([{"name": f["name"], "domain": "uima.tcas.DocumentAnnotation", "range": f["range"], "elem": f["elem"],
+                                     "descr": f["descr"], "multi": f["multi"], "reserved": False} for f in docdecl["feats"]],
+                                   key=lambda f: f["name"])
+            if common.canon(norm_ts_dump(dr["ok"])) != common.canon(exp_dump):
+                out.oracle_failures.append({"scenario": sc, "op_index": li, "what": "type system loaded from its descriptor differs from the original",
+                                            "expected": exp_dump, "actual": norm_ts_dump(dr["ok"])})
+                break
+            rn = sorted({t["name"] for t in loaded_desc if t["name"] in BUILTIN_NAMES or t["name"] == "uima.tcas.DocumentAnnotation"})
             redecl = [next(t for t in loaded_desc if t["name"] == n_) for n_ in rn]
             trimmed = [{**t, "descr": (t["descr"].strip() or None) if t["descr"] else None,
                         "feats": [{**f, "descr": (f["descr"].strip() or None) if f["descr"] else None} for f in t["feats"]]}
